@@ -3,7 +3,8 @@
  * The bodies are named vf_mm*; <immintrin.h> (stub) maps the real names onto them for CBMC.
  * tools/intrin_guard.cpp includes this file natively next to the real <immintrin.h> and
  * compares every body with the hardware instruction (guard, not proof).
- * Lane i of a vector is v[i] (bits 64i+63 .. 64i). */
+ * Lane i of a vector is v[i] (bits 64i+63 .. 64i).
+ * NOTE: no conditional operator anywhere in this file: CBMC 6.11's C++ front end types `c ? 0xFF..UL : 0` as int. */
 #ifndef VF_INTRIN_H
 #define VF_INTRIN_H
 
@@ -58,19 +59,20 @@ static inline vf_m256i vf_mm256_andnot_si256(vf_m256i a, vf_m256i b)
 { vf_m256i r; r.v[0] = ~a.v[0] & b.v[0]; r.v[1] = ~a.v[1] & b.v[1]; r.v[2] = ~a.v[2] & b.v[2]; r.v[3] = ~a.v[3] & b.v[3]; return r; }
 static inline vf_m256i vf_mm256_xor_si256(vf_m256i a, vf_m256i b)
 { vf_m256i r; r.v[0] = a.v[0] ^ b.v[0]; r.v[1] = a.v[1] ^ b.v[1]; r.v[2] = a.v[2] ^ b.v[2]; r.v[3] = a.v[3] ^ b.v[3]; return r; }
-static inline vf_u64 vf_srl64(vf_u64 x, int n) { return (n < 0 || n > 63) ? 0 : x >> n; }
-static inline vf_u64 vf_sll64(vf_u64 x, int n) { return (n < 0 || n > 63) ? 0 : x << n; }
+static inline vf_u64 vf_srl64(vf_u64 x, int n) { vf_u64 r = 0; if (n >= 0 && n <= 63) r = x >> n; return r; }
+static inline vf_u64 vf_sll64(vf_u64 x, int n) { vf_u64 r = 0; if (n >= 0 && n <= 63) r = x << n; return r; }
 static inline vf_m256i vf_mm256_srli_epi64(vf_m256i a, int n)
 { vf_m256i r; r.v[0] = vf_srl64(a.v[0], n); r.v[1] = vf_srl64(a.v[1], n); r.v[2] = vf_srl64(a.v[2], n); r.v[3] = vf_srl64(a.v[3], n); return r; }
 static inline vf_m256i vf_mm256_slli_epi64(vf_m256i a, int n)
 { vf_m256i r; r.v[0] = vf_sll64(a.v[0], n); r.v[1] = vf_sll64(a.v[1], n); r.v[2] = vf_sll64(a.v[2], n); r.v[3] = vf_sll64(a.v[3], n); return r; }
-static inline vf_u64 vf_gt64s(vf_u64 a, vf_u64 b) { return ((vf_s64)a > (vf_s64)b) ? ~(vf_u64)0 : 0; }
+static inline vf_u64 vf_gt64s(vf_u64 a, vf_u64 b) { vf_u64 r = 0; if ((vf_s64)a > (vf_s64)b) r = ~(vf_u64)0; return r; }
 static inline vf_m256i vf_mm256_cmpgt_epi64(vf_m256i a, vf_m256i b)
 { vf_m256i r; r.v[0] = vf_gt64s(a.v[0], b.v[0]); r.v[1] = vf_gt64s(a.v[1], b.v[1]); r.v[2] = vf_gt64s(a.v[2], b.v[2]); r.v[3] = vf_gt64s(a.v[3], b.v[3]); return r; }
 static inline vf_u64 vf_gt32s(vf_u64 a, vf_u64 b)
 {
-  vf_u64 lo = ((vf_s32)(vf_u32)a > (vf_s32)(vf_u32)b) ? 0xFFFFFFFFUL : 0;
-  vf_u64 hi = ((vf_s32)(vf_u32)(a >> 32) > (vf_s32)(vf_u32)(b >> 32)) ? 0xFFFFFFFF00000000UL : 0;
+  vf_u64 lo = 0, hi = 0;
+  if ((vf_s32)(vf_u32)a > (vf_s32)(vf_u32)b) lo = 0xFFFFFFFFUL;
+  if ((vf_s32)(vf_u32)(a >> 32) > (vf_s32)(vf_u32)(b >> 32)) hi = 0xFFFFFFFF00000000UL;
   return hi | lo;
 }
 static inline vf_m256i vf_mm256_cmpgt_epi32(vf_m256i a, vf_m256i b)
@@ -93,7 +95,7 @@ static inline vf_m256d vf_mm256_castsi256_pd(vf_m256i a)
 static inline vf_m256i vf_mm256_castpd_si256(vf_m256d a)
 { vf_m256i r; r.v[0] = a.v[0]; r.v[1] = a.v[1]; r.v[2] = a.v[2]; r.v[3] = a.v[3]; return r; }
 static inline vf_u64 vf_blend32(vf_u64 a, vf_u64 b, int lo_from_b, int hi_from_b)
-{ return ((lo_from_b ? b : a) & 0xFFFFFFFFUL) | ((hi_from_b ? b : a) & 0xFFFFFFFF00000000UL); }
+{ vf_u64 l = a, h = a; if (lo_from_b) l = b; if (hi_from_b) h = b; return (l & 0xFFFFFFFFUL) | (h & 0xFFFFFFFF00000000UL); }
 static inline vf_m256i vf_mm256_blend_epi32(vf_m256i a, vf_m256i b, int imm)
 { vf_m256i r;
   r.v[0] = vf_blend32(a.v[0], b.v[0], imm & 1, imm & 2);
@@ -104,12 +106,12 @@ static inline vf_m256i vf_mm256_blend_epi32(vf_m256i a, vf_m256i b, int imm)
 static inline vf_m256i vf_mm256_permute2f128_si256(vf_m256i a, vf_m256i b, int imm)
 { vf_m256i r; int s;
   s = imm & 3;
-  r.v[0] = s == 0 ? a.v[0] : s == 1 ? a.v[2] : s == 2 ? b.v[0] : b.v[2];
-  r.v[1] = s == 0 ? a.v[1] : s == 1 ? a.v[3] : s == 2 ? b.v[1] : b.v[3];
+  if (s == 0) { r.v[0] = a.v[0]; r.v[1] = a.v[1]; } else if (s == 1) { r.v[0] = a.v[2]; r.v[1] = a.v[3]; }
+  else if (s == 2) { r.v[0] = b.v[0]; r.v[1] = b.v[1]; } else { r.v[0] = b.v[2]; r.v[1] = b.v[3]; }
   if (imm & 8) { r.v[0] = 0; r.v[1] = 0; }
   s = (imm >> 4) & 3;
-  r.v[2] = s == 0 ? a.v[0] : s == 1 ? a.v[2] : s == 2 ? b.v[0] : b.v[2];
-  r.v[3] = s == 0 ? a.v[1] : s == 1 ? a.v[3] : s == 2 ? b.v[1] : b.v[3];
+  if (s == 0) { r.v[2] = a.v[0]; r.v[3] = a.v[1]; } else if (s == 1) { r.v[2] = a.v[2]; r.v[3] = a.v[3]; }
+  else if (s == 2) { r.v[2] = b.v[0]; r.v[3] = b.v[1]; } else { r.v[2] = b.v[2]; r.v[3] = b.v[3]; }
   if (imm & 128) { r.v[2] = 0; r.v[3] = 0; }
   return r; }
 static inline vf_m256d vf_mm256_unpacklo_pd(vf_m256d a, vf_m256d b)
@@ -147,11 +149,11 @@ VF_BIN8(vf_mm512_sub_epi64, x - y)
 VF_BIN8(vf_mm512_and_si512, x & y)
 VF_BIN8(vf_mm512_mul_epu32, vf_mul32((vf_u32)x, (vf_u32)y))
 static inline vf_m512i vf_mm512_srli_epi64(vf_m512i a, unsigned int n)
-{ vf_m512i r; int m = n > 63 ? 64 : (int)n;
+{ vf_m512i r; int m = 64; if (n <= 63) m = (int)n;
   r.v[0] = vf_srl64(a.v[0], m); r.v[1] = vf_srl64(a.v[1], m); r.v[2] = vf_srl64(a.v[2], m); r.v[3] = vf_srl64(a.v[3], m);
   r.v[4] = vf_srl64(a.v[4], m); r.v[5] = vf_srl64(a.v[5], m); r.v[6] = vf_srl64(a.v[6], m); r.v[7] = vf_srl64(a.v[7], m); return r; }
 static inline vf_m512i vf_mm512_slli_epi64(vf_m512i a, unsigned int n)
-{ vf_m512i r; int m = n > 63 ? 64 : (int)n;
+{ vf_m512i r; int m = 64; if (n <= 63) m = (int)n;
   r.v[0] = vf_sll64(a.v[0], m); r.v[1] = vf_sll64(a.v[1], m); r.v[2] = vf_sll64(a.v[2], m); r.v[3] = vf_sll64(a.v[3], m);
   r.v[4] = vf_sll64(a.v[4], m); r.v[5] = vf_sll64(a.v[5], m); r.v[6] = vf_sll64(a.v[6], m); r.v[7] = vf_sll64(a.v[7], m); return r; }
 static inline vf_mmask8 vf_mm512_cmpgt_epu64_mask(vf_m512i a, vf_m512i b)
@@ -166,10 +168,11 @@ static inline vf_mmask8 vf_mm512_cmpge_epu64_mask(vf_m512i a, vf_m512i b)
   return k; }
 static inline vf_m512i vf_mm512_mask_add_epi64(vf_m512i src, vf_mmask8 k, vf_m512i a, vf_m512i b)
 { vf_m512i r;
-  r.v[0] = (k & 1) ? a.v[0] + b.v[0] : src.v[0]; r.v[1] = (k & 2) ? a.v[1] + b.v[1] : src.v[1];
-  r.v[2] = (k & 4) ? a.v[2] + b.v[2] : src.v[2]; r.v[3] = (k & 8) ? a.v[3] + b.v[3] : src.v[3];
-  r.v[4] = (k & 16) ? a.v[4] + b.v[4] : src.v[4]; r.v[5] = (k & 32) ? a.v[5] + b.v[5] : src.v[5];
-  r.v[6] = (k & 64) ? a.v[6] + b.v[6] : src.v[6]; r.v[7] = (k & 128) ? a.v[7] + b.v[7] : src.v[7];
+  r = src;
+  if (k & 1) r.v[0] = a.v[0] + b.v[0];   if (k & 2) r.v[1] = a.v[1] + b.v[1];
+  if (k & 4) r.v[2] = a.v[2] + b.v[2];   if (k & 8) r.v[3] = a.v[3] + b.v[3];
+  if (k & 16) r.v[4] = a.v[4] + b.v[4];  if (k & 32) r.v[5] = a.v[5] + b.v[5];
+  if (k & 64) r.v[6] = a.v[6] + b.v[6];  if (k & 128) r.v[7] = a.v[7] + b.v[7];
   return r; }
 static inline vf_m512i vf_mm512_mask_blend_epi32(vf_mmask16 k, vf_m512i a, vf_m512i b)
 { vf_m512i r;
@@ -179,7 +182,7 @@ static inline vf_m512i vf_mm512_mask_blend_epi32(vf_mmask16 k, vf_m512i a, vf_m5
   r.v[6] = vf_blend32(a.v[6], b.v[6], k & 4096, k & 8192); r.v[7] = vf_blend32(a.v[7], b.v[7], k & 16384, k & 32768);
   return r; }
 static inline vf_u64 vf_px2(vf_m512i a, vf_u64 idx, vf_m512i b)
-{ int o = (int)(idx & 7); return (idx & 8) ? b.v[o] : a.v[o]; }
+{ int o = (int)(idx & 7); vf_u64 r = a.v[o]; if (idx & 8) r = b.v[o]; return r; }
 static inline vf_m512i vf_mm512_permutex2var_epi64(vf_m512i a, vf_m512i idx, vf_m512i b)
 { vf_m512i r;
   r.v[0] = vf_px2(a, idx.v[0], b); r.v[1] = vf_px2(a, idx.v[1], b); r.v[2] = vf_px2(a, idx.v[2], b); r.v[3] = vf_px2(a, idx.v[3], b);
